@@ -690,42 +690,42 @@ theorem relStep_eff {cfg : Cfg} (sh : Shared) (th : TThread) (polled : Bool) (hp
       rw [afterRel_pend, hp1]
       omega
 
-theorem feedStep_eff {cfg : Cfg} (w : Wf cfg) (sh : Shared) (th : TThread) (lt : Limit.Thread) (sync : Bool)
-    (hph : th.ph = .feed lt sync) : Eff cfg sh th (feedStep cfg sh th lt sync) := by
+theorem feedStep_eff {cfg : Cfg} (w : Wf cfg) (sh : Shared) (th : TThread) (lt : Limit.Thread) (sync : Bool) (weak : Bool)
+    (hph : th.ph = .feed lt sync) : Eff cfg sh th (feedStep cfg sh th lt sync weak) := by
   have hp0 : pend th = 0 := by simp [pend, hph]
   unfold feedStep
   simp only
   split
-  · refine eff_quiet sh { sh with alg := (Limit.tstep cfg sh.alg lt).1 } th _ rfl rfl ?_ hp0 ?_ ?_
+  · refine eff_quiet sh { sh with alg := (Limit.tstepW cfg sh.alg lt weak).1 } th _ rfl rfl ?_ hp0 ?_ ?_
     · split <;> rfl
     · split <;> rfl
     · intro a b
-      have hr := Limit.tstep_ok w sh.alg lt a (b lt sync hph)
+      have hr := Limit.tstepW_ok w sh.alg lt weak a (b lt sync hph)
       refine ⟨hr.1, ?_⟩
       split
       · exact thOk_of_ph (by intro lt b; simp)
       · exact tdone_ok cfg _
-  · refine eff_quiet sh { sh with alg := (Limit.tstep cfg sh.alg lt).1 } th _ rfl rfl rfl hp0 rfl ?_
+  · refine eff_quiet sh { sh with alg := (Limit.tstepW cfg sh.alg lt weak).1 } th _ rfl rfl rfl hp0 rfl ?_
     intro a b
-    have hr := Limit.tstep_ok w sh.alg lt a (b lt sync hph)
+    have hr := Limit.tstepW_ok w sh.alg lt weak a (b lt sync hph)
     refine ⟨hr.1, ?_⟩
     intro lt' b' hp; simp at hp; rw [← hp.1]; exact hr.2
 
-theorem enterStep_eff {cfg : Cfg} (sh : Shared) (tid : Nat) (th : TThread) (o : Out) (hph : th.ph = .enter o) :
-    Eff cfg sh th (enterStep sh tid th o) := by
+theorem enterStep_eff {cfg : Cfg} (sh : Shared) (tid : Nat) (th : TThread) (o : Out) (lim seen : Nat)
+    (hph : th.ph = .enter o lim seen) : Eff cfg sh th (enterStep sh tid th o lim seen) := by
   have hp0 : pend th = 0 := by simp [pend, hph]
   refine ⟨fun a _ => ⟨a, thOk_of_ph (by intro lt b; simp [enterStep])⟩, ?_, ?_⟩
   · intro _; simp [enterStep, nlive]; omega
   · intro _
-    have hp1 : pend (enterStep sh tid th o).2 = 0 := rfl
+    have hp1 : pend (enterStep sh tid th o lim seen).2 = 0 := rfl
     rw [hp1, hp0]
     simp [enterStep, calls, ended, List.countP_append, isCall, isEnd]
     omega
 
 /-- **one turn of one thread** keeps the algorithm in bounds and changes the counter by exactly the change of the
 thread's own live guards -/
-theorem tstepT_eff {cfg : Cfg} (w : Wf cfg) (sh : Shared) (tid : Nat) (th : TThread) :
-    Eff cfg sh th (tstepT cfg sh tid th) := by
+theorem tstepT_eff {cfg : Cfg} (w : Wf cfg) (sh : Shared) (tid : Nat) (th : TThread) (weak : Bool := false) :
+    Eff cfg sh th (tstepT cfg sh tid th weak) := by
   unfold tstepT
   split
   · next hph =>
@@ -735,10 +735,11 @@ theorem tstepT_eff {cfg : Cfg} (w : Wf cfg) (sh : Shared) (tid : Nat) (th : TThr
   · next o hph =>
     exact eff_local sh sh th _ rfl rfl rfl rfl (by simp [pend, hph]) rfl (thOk_of_ph (by intro lt b; simp))
   · next o lim hph =>
+    unfold checkStep
     split
-    · exact eff_local sh sh th _ rfl rfl rfl rfl (by simp [pend, hph]) rfl (tdone_ok cfg _)
-    · exact eff_local sh sh th _ rfl rfl rfl rfl (by simp [pend, hph]) rfl (thOk_of_ph (by intro lt b; simp))
-  · next o hph => exact enterStep_eff sh tid th o hph
+    · exact eff_local sh _ th _ rfl rfl rfl rfl (by simp [pend, hph]) rfl (tdone_ok cfg _)
+    · exact eff_local sh _ th _ rfl rfl rfl rfl (by simp [pend, hph]) rfl (thOk_of_ph (by intro lt b; simp))
+  · next o lim seen hph => exact enterStep_eff sh tid th o lim seen hph
   · next hph =>
     exact eff_local sh sh th _ rfl rfl rfl rfl (by simp [pend, hph]) rfl (thOk_of_ph (by intro lt b; simp))
   · next l hph =>
@@ -748,9 +749,251 @@ theorem tstepT_eff {cfg : Cfg} (w : Wf cfg) (sh : Shared) (tid : Nat) (th : TThr
   · next l hph =>
     exact eff_local sh _ th _ rfl rfl rfl rfl (by simp [pend, hph]) rfl (tdone_ok cfg _)
   · next polled hph => exact relStep_eff sh th polled hph
-  · next lt sync hph => exact feedStep_eff w sh th lt sync hph
+  · next lt sync hph => exact feedStep_eff w sh th lt sync weak hph
   · next hph =>
     exact eff_local sh sh th _ rfl rfl rfl rfl (by simp [pend, hph]) rfl (tdone_ok cfg _)
+
+/-! ### readiness under interleaving: what every check saw, what every admitted call was admitted on -/
+
+/-- a limit a thread has loaded for a readiness check: within the bounds, and a value the limit cell has held -/
+def LimOk (cfg : Cfg) (stores : List Nat) (lim : Nat) : Prop := InB cfg lim ∧ lim ∈ stores
+
+/-- a readiness comparison was answered by its own two loads: refused iff the `in_flight` it saw had reached the limit
+it had loaded -/
+def TCheck.ok (cfg : Cfg) (stores : List Nat) (k : TCheck) : Prop :=
+  (k.refused = true ↔ k.seen ≥ k.lim) ∧ LimOk cfg stores k.lim
+
+/-- the readiness registers of a thread and the ghost records of the calls it holds -/
+structure RegOk (cfg : Cfg) (stores : List Nat) (th : TThread) : Prop where
+  rd : ∀ o lim, th.ph = .rdInFlight o lim → LimOk cfg stores lim
+  en : ∀ o lim seen, th.ph = .enter o lim seen → seen < lim ∧ LimOk cfg stores lim
+  cl : ∀ c ∈ th.calls, c.seen < c.lim ∧ LimOk cfg stores c.lim
+
+/-- the thread has passed its readiness check and has not yet counted its call in -/
+def entering (th : TThread) : Nat :=
+  match th.ph with
+  | .enter _ _ _ => 1
+  | _ => 0
+
+theorem entering_le_one (th : TThread) : entering th ≤ 1 := by
+  unfold entering; split <;> omega
+
+theorem limOk_mono {cfg : Cfg} {st st' : List Nat} (hm : ∀ v ∈ st, v ∈ st') {lim : Nat} (h : LimOk cfg st lim) :
+    LimOk cfg st' lim := ⟨h.1, hm _ h.2⟩
+
+theorem regOk_mono {cfg : Cfg} {st st' : List Nat} (hm : ∀ v ∈ st, v ∈ st') {th : TThread} (h : RegOk cfg st th) :
+    RegOk cfg st' th :=
+  ⟨fun o lim hp => limOk_mono hm (h.rd o lim hp), fun o lim seen hp => ⟨(h.en o lim seen hp).1, limOk_mono hm (h.en o lim seen hp).2⟩,
+   fun c hc => ⟨(h.cl c hc).1, limOk_mono hm (h.cl c hc).2⟩⟩
+
+theorem tcheck_mono {cfg : Cfg} {st st' : List Nat} (hm : ∀ v ∈ st, v ∈ st') {k : TCheck} (h : k.ok cfg st) : k.ok cfg st' :=
+  ⟨h.1, limOk_mono hm h.2⟩
+
+/-- what one turn of one thread does to the readiness records -/
+structure Chk (cfg : Cfg) (sh : Shared) (th : TThread) (r : Shared × TThread) : Prop where
+  mono : ∀ v ∈ sh.alg.stores, v ∈ r.1.alg.stores
+  reg  : RegOk cfg r.1.alg.stores r.2
+  chks : ∀ k ∈ r.1.tchecks, k.ok cfg r.1.alg.stores
+  /-- either the turn does not add to "counter + threads about to count themselves in", or it is a check that passed:
+  the counter was below a limit within the bounds -/
+  over : r.1.inFlight + entering r.2 ≤ sh.inFlight + entering th ∨
+         (entering th = 0 ∧ entering r.2 = 1 ∧ r.1.inFlight = sh.inFlight ∧ sh.inFlight + 1 ≤ cfg.max)
+
+/-- a turn that leaves the algorithm's cells, the counter and the check records alone and ends in a phase without
+readiness registers, the calls unchanged -/
+theorem chk_plain {cfg : Cfg} (sh sh' : Shared) (th th' : TThread)
+    (hc : ∀ k ∈ sh.tchecks, k.ok cfg sh.alg.stores) (hr : RegOk cfg sh.alg.stores th)
+    (h1 : sh'.alg = sh.alg) (h2 : sh'.inFlight = sh.inFlight) (h3 : sh'.tchecks = sh.tchecks)
+    (h4 : th'.calls = th.calls) (h5 : entering th' = 0)
+    (h6 : ∀ o lim, th'.ph ≠ .rdInFlight o lim) (h7 : ∀ o lim seen, th'.ph ≠ .enter o lim seen) :
+    Chk cfg sh th (sh', th') := by
+  refine ⟨by intro v hv; simpa [h1] using hv, ⟨?_, ?_, ?_⟩, ?_, ?_⟩
+  · intro o lim hp; exact absurd hp (h6 o lim)
+  · intro o lim seen hp; exact absurd hp (h7 o lim seen)
+  · intro c hcm; simp only [h1]; rw [h4] at hcm; exact hr.cl c hcm
+  · intro k hk; simp only [h1]; rw [h3] at hk; exact hc k hk
+  · left; simp only [h2, h5]; omega
+
+theorem tdone_entering (th : TThread) : entering (tdone th) = 0 := rfl
+
+theorem afterRel_entering (th : TThread) (p : Bool) (o : Out) : entering (afterRel th p o) = 0 := by
+  unfold afterRel; split
+  · split <;> rfl
+  · rfl
+
+theorem afterRel_noReg (th : TThread) (p : Bool) (o : Out) :
+    (∀ o' lim, (afterRel th p o).ph ≠ .rdInFlight o' lim) ∧ (∀ o' lim seen, (afterRel th p o).ph ≠ .enter o' lim seen) := by
+  unfold afterRel; split
+  · split <;> exact ⟨by intro o' lim; simp [tdone], by intro o' lim seen; simp [tdone]⟩
+  · exact ⟨by intro o' lim; simp [tdone], by intro o' lim seen; simp [tdone]⟩
+
+theorem beginT_chk {cfg : Cfg} (sh : Shared) (th : TThread) (op : TOp)
+    (hc : ∀ k ∈ sh.tchecks, k.ok cfg sh.alg.stores) (hr : RegOk cfg sh.alg.stores th) :
+    Chk cfg sh th (beginT sh th op) := by
+  cases op with
+  | acquire o => exact chk_plain sh sh th _ hc hr rfl rfl rfl rfl rfl (by intro o l; simp) (by intro o l s; simp)
+  | readInFlight => exact chk_plain sh sh th _ hc hr rfl rfl rfl rfl rfl (by intro o l; simp) (by intro o l s; simp)
+  | fb op => exact chk_plain sh sh th _ hc hr rfl rfl rfl rfl rfl (by intro o l; simp) (by intro o l s; simp)
+  | finishCall =>
+    simp only [beginT]
+    split
+    · exact chk_plain sh sh th _ hc hr rfl rfl rfl rfl rfl (by intro o l; simp [tdone]) (by intro o l s; simp [tdone])
+    · split
+      · exact chk_plain sh sh th _ hc hr rfl rfl rfl rfl rfl (by intro o l; simp [tdone]) (by intro o l s; simp [tdone])
+      · exact chk_plain sh _ th _ hc hr rfl rfl rfl rfl rfl (by intro o l; simp) (by intro o l s; simp)
+  | dropCall =>
+    simp only [beginT]
+    split
+    · exact chk_plain sh sh th _ hc hr rfl rfl rfl rfl rfl (by intro o l; simp [tdone]) (by intro o l s; simp [tdone])
+    · exact chk_plain sh _ th _ hc hr rfl rfl rfl rfl rfl (by intro o l; simp) (by intro o l s; simp)
+
+theorem relStep_chk {cfg : Cfg} (sh : Shared) (th : TThread) (polled : Bool)
+    (hc : ∀ k ∈ sh.tchecks, k.ok cfg sh.alg.stores) (hr : RegOk cfg sh.alg.stores th) (hph : th.ph = .rel polled) :
+    Chk cfg sh th (relStep sh th polled) := by
+  have he : entering th = 0 := by simp [entering, hph]
+  unfold relStep
+  split
+  · exact chk_plain sh sh th _ hc hr rfl rfl rfl rfl rfl (by intro o l; simp [tdone]) (by intro o l s; simp [tdone])
+  · next cl rest hcs =>
+    have hn := afterRel_noReg { th with calls := rest } polled cl.o
+    refine ⟨fun v hv => hv, ⟨?_, ?_, ?_⟩, hc, ?_⟩
+    · intro o lim hp; exact absurd hp (hn.1 o lim)
+    · intro o lim seen hp; exact absurd hp (hn.2 o lim seen)
+    · intro c hcm
+      rw [afterRel_calls] at hcm
+      exact hr.cl c (by rw [hcs]; exact List.mem_cons_of_mem _ hcm)
+    · left
+      show sh.inFlight - 1 + entering (afterRel { th with calls := rest } polled cl.o) ≤ sh.inFlight + entering th
+      rw [afterRel_entering]; omega
+
+theorem feedStep_chk {cfg : Cfg} (sh : Shared) (th : TThread) (lt : Limit.Thread) (sync : Bool) (weak : Bool)
+    (hc : ∀ k ∈ sh.tchecks, k.ok cfg sh.alg.stores) (hr : RegOk cfg sh.alg.stores th) (hph : th.ph = .feed lt sync) :
+    Chk cfg sh th (feedStep cfg sh th lt sync weak) := by
+  have he : entering th = 0 := by simp [entering, hph]
+  have hm : ∀ v ∈ sh.alg.stores, v ∈ (Limit.tstepW cfg sh.alg lt weak).1.stores :=
+    fun v hv => Limit.tstepW_mono cfg sh.alg lt weak v hv
+  unfold feedStep
+  simp only
+  split
+  · split
+    · refine ⟨hm, ⟨by intro o l hp; simp at hp, by intro o l s hp; simp at hp, ?_⟩, fun k hk => tcheck_mono hm (hc k hk), ?_⟩
+      · intro c hcm; exact (regOk_mono hm hr).cl c hcm
+      · left; show sh.inFlight + 0 ≤ _; omega
+    · refine ⟨hm, ⟨by intro o l hp; simp [tdone] at hp, by intro o l s hp; simp [tdone] at hp, ?_⟩,
+        fun k hk => tcheck_mono hm (hc k hk), ?_⟩
+      · intro c hcm; exact (regOk_mono hm hr).cl c hcm
+      · left; show sh.inFlight + 0 ≤ _; omega
+  · refine ⟨hm, ⟨by intro o l hp; simp at hp, by intro o l s hp; simp at hp, ?_⟩, fun k hk => tcheck_mono hm (hc k hk), ?_⟩
+    · intro c hcm; exact (regOk_mono hm hr).cl c hcm
+    · left; show sh.inFlight + 0 ≤ _; omega
+
+theorem enterStep_chk {cfg : Cfg} (sh : Shared) (tid : Nat) (th : TThread) (o : Out) (lim seen : Nat)
+    (hc : ∀ k ∈ sh.tchecks, k.ok cfg sh.alg.stores) (hr : RegOk cfg sh.alg.stores th) (hph : th.ph = .enter o lim seen) :
+    Chk cfg sh th (enterStep sh tid th o lim seen) := by
+  have he : entering th = 1 := by simp [entering, hph]
+  have hen := hr.en o lim seen hph
+  refine ⟨fun v hv => hv, ⟨by intro o l hp; simp [enterStep] at hp, by intro o l s hp; simp [enterStep] at hp, ?_⟩, hc, ?_⟩
+  · intro c hcm
+    simp only [enterStep, List.mem_append, List.mem_singleton] at hcm
+    rcases hcm with hcm | hcm
+    · exact hr.cl c hcm
+    · subst hcm; exact hen
+  · left
+    show sh.inFlight + 1 + 0 ≤ sh.inFlight + entering th
+    omega
+
+theorem checkStep_chk {cfg : Cfg} (sh : Shared) (tid : Nat) (th : TThread) (o : Out) (lim : Nat)
+    (ha : CellsOk cfg sh.alg) (hc : ∀ k ∈ sh.tchecks, k.ok cfg sh.alg.stores) (hr : RegOk cfg sh.alg.stores th)
+    (hph : th.ph = .rdInFlight o lim) : Chk cfg sh th (checkStep sh tid th o lim) := by
+  have he : entering th = 0 := by simp [entering, hph]
+  have hl := hr.rd o lim hph
+  unfold checkStep
+  split
+  · next hge =>
+    refine ⟨fun v hv => hv, ⟨by intro o l hp; simp [tdone] at hp, by intro o l s hp; simp [tdone] at hp, ?_⟩, ?_, ?_⟩
+    · intro c hcm; exact hr.cl c hcm
+    · intro k hk
+      simp only [List.mem_append, List.mem_singleton] at hk
+      rcases hk with hk | hk
+      · exact hc k hk
+      · subst hk; exact ⟨by simp; exact hge, hl⟩
+    · left; show sh.inFlight + 0 ≤ _; omega
+  · next hlt =>
+    refine ⟨fun v hv => hv, ⟨by intro o l hp; simp at hp, ?_, ?_⟩, ?_, ?_⟩
+    · intro o' lim' seen' hp
+      simp only [TPh.enter.injEq] at hp
+      obtain ⟨_, h2, h3⟩ := hp
+      subst h2; subst h3
+      exact ⟨by omega, hl⟩
+    · intro c hcm; exact hr.cl c hcm
+    · intro k hk
+      simp only [List.mem_append, List.mem_singleton] at hk
+      rcases hk with hk | hk
+      · exact hc k hk
+      · subst hk; exact ⟨by simp; omega, hl⟩
+    · right
+      have : lim ≤ cfg.max := hl.1.2
+      exact ⟨he, rfl, rfl, by omega⟩
+
+/-- **one turn of one thread** keeps every readiness record truthful -/
+theorem tstepT_chk {cfg : Cfg} (sh : Shared) (tid : Nat) (th : TThread) (weak : Bool)
+    (ha : CellsOk cfg sh.alg) (hc : ∀ k ∈ sh.tchecks, k.ok cfg sh.alg.stores) (hr : RegOk cfg sh.alg.stores th) :
+    Chk cfg sh th (tstepT cfg sh tid th weak) := by
+  unfold tstepT
+  split
+  · next hph =>
+    split
+    · refine ⟨fun v hv => hv, hr, hc, Or.inl (Nat.le_refl _)⟩
+    · exact beginT_chk sh th _ hc hr
+  · next o hph =>
+    -- `poll_ready` loads the limit: the value the cell holds now
+    refine ⟨fun v hv => hv, ⟨?_, by intro o l s hp; simp at hp, fun c hcm => hr.cl c hcm⟩, hc, ?_⟩
+    · intro o' lim hp
+      simp only [TPh.rdInFlight.injEq] at hp
+      rw [← hp.2]
+      exact ⟨ha.lim, Limit.limit_mem_stores ha⟩
+    · left; simp [entering, hph]
+  · next o lim hph => exact checkStep_chk sh tid th o lim ha hc hr hph
+  · next o lim seen hph => exact enterStep_chk sh tid th o lim seen hc hr hph
+  · next hph => exact chk_plain sh sh th _ hc hr rfl rfl rfl rfl rfl (by intro o l; simp) (by intro o l s; simp)
+  · next l hph =>
+    split
+    · exact chk_plain sh sh th _ hc hr rfl rfl rfl rfl rfl (by intro o l; simp [tdone]) (by intro o l s; simp [tdone])
+    · exact chk_plain sh sh th _ hc hr rfl rfl rfl rfl rfl (by intro o l; simp) (by intro o l s; simp)
+  · next l hph => exact chk_plain sh _ th _ hc hr rfl rfl rfl rfl rfl (by intro o l; simp [tdone]) (by intro o l s; simp [tdone])
+  · next polled hph => exact relStep_chk sh th polled hc hr hph
+  · next lt sync hph => exact feedStep_chk sh th lt sync weak hc hr hph
+  · next hph => exact chk_plain sh sh th _ hc hr rfl rfl rfl rfl rfl (by intro o l; simp [tdone]) (by intro o l s; simp [tdone])
+
+theorem sumBy_le_length (f : TThread → Nat) (hf : ∀ x, f x ≤ 1) (l : List TThread) : sumBy f l ≤ l.length := by
+  induction l with
+  | nil => simp [sumBy]
+  | cons x xs ih =>
+    simp only [sumBy, List.map_cons, List.sum_cons, List.length_cons] at ih ⊢
+    have := hf x; omega
+
+/-- `sumBy_split` with the rest bounded by the number of the OTHER threads -/
+theorem sumBy_split_le (f : TThread → Nat) (hf : ∀ x, f x ≤ 1) : ∀ (l : List TThread) (i : Nat) (a : TThread), l[i]? = some a →
+    ∃ rest, sumBy f l = f a + rest ∧ (∀ b, sumBy f (l.set i b) = f b + rest) ∧ rest + 1 ≤ l.length := by
+  intro l
+  induction l with
+  | nil => intro i a h; simp at h
+  | cons x xs ih =>
+    intro i a h
+    cases i with
+    | zero =>
+      simp at h
+      subst h
+      exact ⟨sumBy f xs, by simp [sumBy], by intro b; simp [sumBy], by have := sumBy_le_length f hf xs; simp; omega⟩
+    | succ j =>
+      simp at h
+      obtain ⟨rest, h1, h2, h3⟩ := ih j a h
+      refine ⟨f x + rest, ?_, ?_, ?_⟩
+      · simp only [sumBy, List.map_cons, List.sum_cons] at h1 ⊢; omega
+      · intro b
+        have := h2 b
+        simp only [sumBy, List.set_cons_succ, List.map_cons, List.sum_cons] at this ⊢; omega
+      · have := hf x; simp only [List.length_cons]; omega
 
 /-- the invariant of the interleaving model: `base` calls of other (single-threaded) callers are in flight throughout -/
 structure TInv (cfg : Cfg) (base : Nat) (s : TState) : Prop where
@@ -758,6 +1001,12 @@ structure TInv (cfg : Cfg) (base : Nat) (s : TState) : Prop where
   ths : ∀ th ∈ s.threads, ThOk cfg th
   exact : s.sh.inFlight = base + sumBy nlive s.threads
   trace : calls s.sh.log + sumBy pend s.threads = ended s.sh.log + s.sh.inFlight
+  /-- every readiness comparison made so far was answered by what it saw -/
+  chks : ∀ k ∈ s.sh.tchecks, k.ok cfg s.sh.alg.stores
+  /-- every thread about to call, and every call in flight, passed a check that saw fewer calls than its limit -/
+  regs : ∀ th ∈ s.threads, RegOk cfg s.sh.alg.stores th
+  /-- stale checks overshoot by at most one call per other thread -/
+  over : s.sh.inFlight + sumBy entering s.threads ≤ max base (cfg.max + s.threads.length - 1)
 
 theorem tinv_say {cfg : Cfg} {base : Nat} {s : TState} (h : TInv cfg base s) (l : String) :
     TInv cfg base { s with sh := pushLog s.sh (.raw l) } :=
@@ -765,42 +1014,106 @@ theorem tinv_say {cfg : Cfg} {base : Nat} {s : TState} (h : TInv cfg base s) (l 
     trace := by
       have := h.trace
       simp only [pushLog, calls, ended, List.countP_append, List.countP_cons, List.countP_nil, isCall, isEnd] at *
-      simpa using this }
+      simpa using this
+    chks := h.chks
+    regs := h.regs
+    over := h.over }
 
-theorem stepTT_inv {cfg : Cfg} (w : Wf cfg) {base : Nat} {s : TState} (h : TInv cfg base s) (tid : Nat) :
-    TInv cfg base (stepTT cfg s tid) := by
+theorem stepTT_inv {cfg : Cfg} (w : Wf cfg) {base : Nat} {s : TState} (h : TInv cfg base s) (t : Limit.Turn) :
+    TInv cfg base (stepTT cfg s t) := by
   unfold stepTT
   split
   · exact tinv_say h _
   · next th hth =>
     split
     · exact tinv_say h _
-    · have hs := tinv_say h s!"step {tid}"
-      have e := tstepT_eff w (pushLog s.sh (.raw s!"step {tid}")) tid th
+    · have hs := tinv_say h s!"step {t.render}"
+      have e := tstepT_eff w (pushLog s.sh (.raw s!"step {t.render}")) t.tid th t.isWeak
       have hmem : th ∈ s.threads := List.mem_of_getElem? hth
-      obtain ⟨r1, a1, b1⟩ := sumBy_split nlive s.threads tid th hth
-      obtain ⟨r2, a2, b2⟩ := sumBy_split pend s.threads tid th hth
+      have k := tstepT_chk (pushLog s.sh (.raw s!"step {t.render}")) t.tid th t.isWeak hs.alg hs.chks (hs.regs th hmem)
+      obtain ⟨r1, a1, b1⟩ := sumBy_split nlive s.threads t.tid th hth
+      obtain ⟨r2, a2, b2⟩ := sumBy_split pend s.threads t.tid th hth
+      obtain ⟨r3, a3, b3, c3⟩ := sumBy_split_le entering entering_le_one s.threads t.tid th hth
       have hex := hs.exact
       have htr := hs.trace
-      simp only at hex htr
-      have hle : nlive th ≤ (pushLog s.sh (.raw s!"step {tid}")).inFlight := by rw [hex, a1]; omega
+      have hov := hs.over
+      simp only at hex htr hov
+      have hle : nlive th ≤ (pushLog s.sh (.raw s!"step {t.render}")).inFlight := by rw [hex, a1]; omega
       have ha := e.alg hs.alg (h.ths th hmem)
       have hc := e.cnt hle
       have ht := e.tr hle
-      show TInv cfg base { sh := (tstepT cfg (pushLog s.sh (.raw s!"step {tid}")) tid th).1,
-                           threads := s.threads.set tid (tstepT cfg (pushLog s.sh (.raw s!"step {tid}")) tid th).2 }
-      generalize tstepT cfg (pushLog s.sh (.raw s!"step {tid}")) tid th = r at ha hc ht
-      refine ⟨ha.1, ?_, ?_, ?_⟩
+      have km := k.mono
+      have kr := k.reg
+      have kc := k.chks
+      have ko := k.over
+      show TInv cfg base { sh := (tstepT cfg (pushLog s.sh (.raw s!"step {t.render}")) t.tid th t.isWeak).1,
+                           threads := s.threads.set t.tid (tstepT cfg (pushLog s.sh (.raw s!"step {t.render}")) t.tid th t.isWeak).2 }
+      generalize tstepT cfg (pushLog s.sh (.raw s!"step {t.render}")) t.tid th t.isWeak = r at ha hc ht km kr kc ko
+      refine ⟨ha.1, ?_, ?_, ?_, kc, ?_, ?_⟩
       · intro x hx
         rcases List.mem_or_eq_of_mem_set hx with hx | hx
         · exact h.ths x hx
         · subst hx; exact ha.2
-      · show r.1.inFlight = base + sumBy nlive (s.threads.set tid r.2)
+      · show r.1.inFlight = base + sumBy nlive (s.threads.set t.tid r.2)
         rw [b1]; rw [hex, a1] at hc; omega
-      · show calls r.1.log + sumBy pend (s.threads.set tid r.2) = ended r.1.log + r.1.inFlight
+      · show calls r.1.log + sumBy pend (s.threads.set t.tid r.2) = ended r.1.log + r.1.inFlight
         rw [b2]; rw [a2] at htr; omega
+      · intro x hx
+        rcases List.mem_or_eq_of_mem_set hx with hx | hx
+        · exact regOk_mono km (h.regs x hx)
+        · subst hx; exact kr
+      · show r.1.inFlight + sumBy entering (s.threads.set t.tid r.2) ≤ max base (cfg.max + (s.threads.set t.tid r.2).length - 1)
+        rw [b3, List.length_set]
+        rw [a3] at hov
+        have hsh : (pushLog s.sh (.raw s!"step {t.render}")).inFlight = s.sh.inFlight := rfl
+        rw [hsh] at ko
+        rcases ko with ko | ⟨k1, k2, k3, k4⟩
+        · omega
+        · rw [k2, k3]
+          have : s.sh.inFlight + (1 + r3) ≤ cfg.max + s.threads.length - 1 := by omega
+          omega
 
-theorem runSchedT_inv {cfg : Cfg} (w : Wf cfg) {base : Nat} (sched : List Nat) {s : TState} (h : TInv cfg base s) :
+/-- **the turn of a readiness comparison**: a thread whose next yield point is the `in_flight` load of `poll_ready`
+(limit `lim` loaded earlier) is refused in that turn iff the calls in flight AT THAT TURN (`base` of the single-threaded
+callers + the live guards of all threads — the counter is exact) have reached `lim`; otherwise it goes on to `call`.
+The ghost record of the check says exactly that. -/
+theorem stepTT_check {cfg : Cfg} {base : Nat} {s : TState} (h : TInv cfg base s) (t : Limit.Turn) (th : TThread)
+    (o : Out) (lim : Nat) (hth : s.threads[t.tid]? = some th) (hp : th.prog.isEmpty = false) (hph : th.ph = .rdInFlight o lim) :
+    (stepTT cfg s t).sh.tchecks = s.sh.tchecks ++
+      [{ tid := t.tid, lim := lim, seen := base + liveGuards s.threads, refused := decide (base + liveGuards s.threads ≥ lim) }] ∧
+    (stepTT cfg s t).threads = s.threads.set t.tid
+      (if base + liveGuards s.threads ≥ lim then tdone { th with out := th.out ++ ["x"] }
+       else { th with ph := .enter o lim (base + liveGuards s.threads) }) ∧
+    (stepTT cfg s t).sh.inFlight = s.sh.inFlight := by
+  have hex : s.sh.inFlight = base + liveGuards s.threads := by rw [liveGuards_eq]; exact h.exact
+  unfold stepTT
+  simp only [hth, hp]
+  simp only [tstepT, hph, checkStep, pushLog]
+  rw [hex]
+  by_cases hge : base + liveGuards s.threads ≥ lim
+  · simp [hge]
+  · simp [hge]
+
+/-- the turn before: `poll_ready` loads the limit — the value the limit cell holds at THAT turn -/
+theorem stepTT_loadLimit (cfg : Cfg) (s : TState) (t : Limit.Turn) (th : TThread) (o : Out)
+    (hth : s.threads[t.tid]? = some th) (hp : th.prog.isEmpty = false) (hph : th.ph = .rdLimit o) :
+    (stepTT cfg s t).threads = s.threads.set t.tid { th with ph := .rdInFlight o s.sh.alg.limit } ∧
+    (stepTT cfg s t).sh.inFlight = s.sh.inFlight ∧ (stepTT cfg s t).sh.alg = s.sh.alg := by
+  unfold stepTT
+  simp only [hth, hp]
+  simp [tstepT, hph, pushLog]
+
+/-- the `fetch_sub` of a guard never wraps: a thread that holds a call finds the counter at 1 or more -/
+theorem guard_release_no_underflow {cfg : Cfg} {base : Nat} {s : TState} (h : TInv cfg base s) (th : TThread)
+    (hm : th ∈ s.threads) (hc : th.calls ≠ []) : 0 < s.sh.inFlight := by
+  obtain ⟨i, hi⟩ := List.getElem?_of_mem hm
+  obtain ⟨rest, a, _⟩ := sumBy_split nlive s.threads i th hi
+  have := h.exact
+  have hl : 0 < nlive th := by
+    unfold nlive; exact List.length_pos_iff.mpr hc
+  omega
+
+theorem runSchedT_inv {cfg : Cfg} (w : Wf cfg) {base : Nat} (sched : List Limit.Turn) {s : TState} (h : TInv cfg base s) :
     TInv cfg base (runSchedT cfg s sched) := by
   induction sched generalizing s with
   | nil => exact h
@@ -816,7 +1129,7 @@ theorem drainT_inv {cfg : Cfg} (w : Wf cfg) {base : Nat} (n : Nat) {s : TState} 
     · exact h
     · exact ih (stepTT_inv w h _)
 
-theorem execT_inv {cfg : Cfg} (w : Wf cfg) {base : Nat} (sched : List Nat) {s : TState} (h : TInv cfg base s) :
+theorem execT_inv {cfg : Cfg} (w : Wf cfg) {base : Nat} (sched : List Limit.Turn) {s : TState} (h : TInv cfg base s) :
     TInv cfg base (execT cfg s sched) :=
   drainT_inv w _ (runSchedT_inv w sched h)
 
@@ -840,10 +1153,24 @@ theorem fresh_ok (cfg : Cfg) (progs : List (List TOp)) : ∀ th ∈ freshThreads
   obtain ⟨p, _, rfl⟩ := hx
   exact thOk_of_ph (by intro lt b; simp)
 
+theorem fresh_entering (progs : List (List TOp)) : sumBy entering (freshThreads progs) = 0 := by
+  apply sumBy_zero
+  intro x hx
+  simp [freshThreads] at hx
+  obtain ⟨p, _, rfl⟩ := hx
+  rfl
+
+theorem fresh_regs (cfg : Cfg) (st : List Nat) (progs : List (List TOp)) : ∀ th ∈ freshThreads progs, RegOk cfg st th := by
+  intro x hx
+  simp [freshThreads] at hx
+  obtain ⟨p, _, rfl⟩ := hx
+  exact ⟨by intro o l hp; simp at hp, by intro o l s hp; simp at hp, by intro c hc; simp at hc⟩
+
 /-- threads started on any shared state whose log accounts for its counter -/
 theorem start_tinv {cfg : Cfg} {sh : Shared} (ha : CellsOk cfg sh.alg) (ht : calls sh.log = ended sh.log + sh.inFlight)
-    (progs : List (List TOp)) : TInv cfg sh.inFlight { sh := sh, threads := freshThreads progs } :=
-  ⟨ha, fresh_ok cfg progs, by simp [fresh_nlive], by simp [fresh_pend, ht]⟩
+    (progs : List (List TOp)) (hk : sh.tchecks = [] := by rfl) : TInv cfg sh.inFlight { sh := sh, threads := freshThreads progs } :=
+  ⟨ha, fresh_ok cfg progs, by simp [fresh_nlive], by simp [fresh_pend, ht], by intro k hkm; simp [hk] at hkm,
+   fresh_regs cfg _ progs, by simp only [fresh_entering]; omega⟩
 
 theorem tinit_inv {cfg : Cfg} {s : State} (h : Inv cfg s) : TInv cfg s.inFlight (tinit s) :=
   start_tinv (sh := { alg := s.alg, inFlight := s.inFlight, cur := s.cur, serial := s.serial, log := s.log })
@@ -892,7 +1219,7 @@ theorem pend_of_idle (th : TThread) (h : th.ph.isIdle = true) : pend th = 0 := b
 
 /-- **a round of threads inside a history**: afterwards the counter is again the number of running calls of the
 single-threaded callers, the log accounts for it, the limit is in bounds -/
-theorem schedOp_inv {cfg : Cfg} (w : Wf cfg) {s : State} (h : Inv cfg s) (sch : List Nat) :
+theorem schedOp_inv {cfg : Cfg} (w : Wf cfg) {s : State} (h : Inv cfg s) (sch : List Limit.Turn) :
     Inv cfg (schedOp cfg s sch) := by
   have ht := execT_inv w sch (tinit_inv h)
   unfold schedOp
